@@ -5,7 +5,7 @@ PROP = {
     "harness_cmd": "c01",
     "run_file": "Run/C01Run.v",
     "obligation_files": ["Props/C01.v", "Lib/SemLibAgreeProofs.v", "Sem/GenBuggyProofs.v", "Sem/GenProofs.v", "Sem/PinnedProofs.v", "Sem/FromText.v", "Syn/Lower.v",
-                         "Syn/TextToAst.v", "Syn/FullProofs.v", "Syn/FullRel.v", "Syn/Full.v", "Run/C01TextRun.v"],
+                         "Syn/TextToAst.v", "Syn/RenderText.v", "Syn/FullProofs.v", "Syn/FullRel.v", "Syn/Full.v", "Run/C01TextRun.v"],
     "harness_timeout": 3000,
     # lists of counts printed by every case file, summed over the shards into coverage.correspondence.coq_counts
     "count_lists": {"c01_counts": ["M_compared", "M_skipped_unsupported", "M_skipped_out_of_fuel", "M_skipped_laziness",
